@@ -121,6 +121,24 @@ def run(ctx):
             ctx.count("family:" + label)
             _sched.run_schedules(ctx, scn, dict(family=label, kind=outer), judge, n_random, ["c03-empty", j, outer])
 
+    # recorded regression scenarios (scenario + schedule): defects found elsewhere whose symptom is this property's
+    import glob, os
+    for j, f in enumerate(sorted(glob.glob(os.path.join(os.path.dirname(os.path.dirname(os.path.abspath(__file__))), "regress", "C03", "*.json")))):
+        if not ctx.mine(j):
+            continue
+        doc = json.load(open(f))
+        ctx.evaluation(); ctx.count("recorded_regression_scenarios")
+        run = S.execute(doc["scenario"], labels=doc["schedule"], seed=doc.get("seed", 0))
+        try:
+            _sched.observe(ctx, run)
+            if run.error:
+                ctx.violation("exception-escaped-the-engine", S.witness_of(run, dict(regression=os.path.basename(f))), None)
+            for v in run.violations:
+                if v["rule"].startswith("A1-"):
+                    ctx.violation(v["rule"], S.witness_of(run, dict(violation=v, regression=os.path.basename(f))), None)
+        finally:
+            S.close(run)
+
 
 def witness_scenario():
     names = F.Names()
